@@ -79,7 +79,8 @@ def apply_script(base, script, typool):
                 r["params"] = {"kind": "reference", "name": "HoverParams"}
             r["result"] = {"ref": {"kind": "reference", "name": "Hover"},
                            "orNull": {"kind": "or", "items": [{"kind": "reference", "name": "Hover"}, {"kind": "base", "name": "null"}]},
-                           "null": {"kind": "base", "name": "null"}}[e["result"]]
+                           "null": {"kind": "base", "name": "null"},
+                           "enumArray": {"kind": "array", "element": {"kind": "reference", "name": "SymbolKind"}}}[e["result"]]
             d["requests"].append(r)
             a.update(list="requests", ins=r)
             touched.add("verif/newRequest")
